@@ -122,6 +122,26 @@ def run(chk):
                 vcases.append(("hverify", [alg.encode(), h, digest(alg, data)] + ch)); want.append(w)
         vcases.append(("hverify", [b"sha3", b"00", b""] + ch)); want.append("error")
         vcases.append(("hverify", [b"", b"00", b""] + ch)); want.append("error")
+    # two verifiers of one algorithm alive at the same time, their streams written alternately: each answers for its
+    # own stream (a shared hash state would make both see the mixture)
+    pcases, pwant = [], []
+    for _ in range(chk.n(300, 6000)):
+        alg = rng.choice(ALGS)
+        da, db = rng.choice(datas[:60]), rng.choice(datas[:60])
+        ha, hb = digest(alg, da).hex().encode(), digest(alg, db).hex().encode()
+        k = rng.randrange(4)
+        if k == 1:
+            hb = digest(alg, da + db).hex().encode()        # what a shared state would compute
+        elif k == 2:
+            ha, hb = hb, ha
+        pcases.append(("hverify2", [alg.encode(), ha, hb, da, db]))
+        pwant.append(("accept" if ha == digest(alg, da).hex().encode() else "reject") + " " + ("accept" if hb == digest(alg, db).hex().encode() else "reject"))
+    pi = chk.run_impl(pcases)
+    chk.record("two-verifiers-at-once", pcases, pi, lambda c, r: "accept" in r)
+    for c, i, w in zip(pcases, pi, pwant):
+        if i != w:
+            chk.violate({"kind": "property", "case": lib.show_case((c[0], c[1][:3] + [b"<%d bytes>" % len(c[1][3]), b"<%d bytes>" % len(c[1][4])])), "impl": i, "expected": w,
+                         "explanation": "with two verifiers open at once, a verifier does not accept exactly when its own stream has the recorded digest"})
     vi, vm = chk.run_both(vcases)
     chk.compare("verifier", vcases, vi, vm, nontrivial=lambda c, r: r == "accept")
     for c, i, w in zip(vcases, vi, want):
